@@ -40,6 +40,10 @@ func genWQ(g *genCtx) {
 	for t := 0; t < nCases; t++ {
 		g.newCase("profile=" + profile)
 		r := g.rng
+		if (profile == "C05" || profile == "C16") && t%2 == 1 {
+			genAdjustStorm(g, r, profile)
+			continue
+		}
 		W, L := r.rangeIn(1, maxW), r.rangeIn(1, maxL)
 		g.op("new W=%d L=%d", W, L)
 		n := 0     // enqueues issued
@@ -118,6 +122,51 @@ func genWQ(g *genCtx) {
 		}
 		g.op("final")
 	}
+}
+
+// genAdjustStorm: one worker, a queue of 5-7 waiting items most of which carry adjust functions; several adjust values change
+// at once (parents and children of the heap both moving), decisions are triggered by completions and by SetPriority/Dequeue,
+// and (C16) Dequeue/SetPriority then target items whose heap slot has moved.
+func genAdjustStorm(g *genCtx, r *rng, profile string) {
+	L := r.rangeIn(5, 7)
+	g.op("new W=1 L=%d", L)
+	n := 0
+	g.op("enq prio=1 name=%d adj=0", n) // runs
+	n++
+	g.op("enq prio=1 name=%d adj=0", n) // handed to the worker pool
+	n++
+	waiting := []int{}
+	for i := 0; i < L; i++ {
+		g.op("enq prio=%d name=%d adj=%d", r.rangeIn(1, 9), n, b2i(r.chance(3, 4)))
+		waiting = append(waiting, n)
+		n++
+	}
+	for round := 0; round < r.rangeIn(2, 4); round++ {
+		// several adjust functions change for the same decision
+		for i, k := 0, r.rangeIn(2, 4); i < k; i++ {
+			g.op("setadj id=%d v=%d", waiting[r.intn(len(waiting))], r.rangeIn(0, 12))
+		}
+		switch {
+		case profile == "C16" && r.chance(2, 3):
+			// SetPriority / Dequeue trigger the re-ordering and then act on (possibly moved) items
+			g.op("setprio id=%d p=%d", waiting[r.intn(len(waiting))], r.rangeIn(0, 12))
+			g.op("deq id=%d", waiting[r.intn(len(waiting))])
+			if r.chance(1, 2) {
+				g.op("deq id=%d", waiting[r.intn(len(waiting))])
+			}
+		default:
+			g.op("rel pick=0 err=0")
+		}
+		if r.chance(1, 2) {
+			g.op("enq prio=%d name=%d adj=%d", r.rangeIn(1, 9), n, b2i(r.chance(1, 2)))
+			waiting = append(waiting, n)
+			n++
+		}
+	}
+	for i := 0; i < n+2; i++ {
+		g.op("rel pick=0 err=0")
+	}
+	g.op("final")
 }
 
 type wqItem struct {
